@@ -29,6 +29,9 @@ func c16GenRW(r *verifh.Rng) []verifh.Section {
 		ignore := r.Intn(2)
 		t0 := r.Pick(0, 1, iv-1, iv, r.Intn(1000*iv+1))
 		now := t0
+		// one section in six lets the clock step backwards now and then (outside the property: the driver then only
+		// compares with the model of what the code does, see RW.spanB)
+		backwards := r.Chance(1, 6)
 		var ops []string
 		val := 1
 		nops := r.Range(4, verifh.Scale(70, 140))
@@ -66,6 +69,13 @@ func c16GenRW(r *verifh.Rng) []verifh.Section {
 			}
 			if next < now {
 				next = now
+			}
+			if backwards && r.Chance(1, 6) {
+				// less than an interval, exactly one, several, beyond the whole window
+				next = now - r.Pick(1, iv-1, iv, iv+1, r.Range(1, size+2)*iv+r.Intn(iv), r.Intn(3*iv+1))
+				if next < 0 {
+					next = 0
+				}
 			}
 			now = next
 			switch x := r.Intn(100); {
